@@ -107,6 +107,11 @@ func (session *ServerCommandSession) FeedSdp(b []byte) {
 //
 // 使用RTSP TCP命令连接，向对端发送RTP数据
 func (session *ServerCommandSession) WriteInterleavedPacket(packet []byte, channel int) error {
+	if len(packet) > maxInterleavedPacketLen {
+		// the length field of an interleaved frame has 16 bits (rfc2326 10.12): a longer packet cannot be framed,
+		// writing it with a wrapped length would desynchronise the peer for the rest of the connection
+		return nazaerrors.Wrap(base.ErrRtsp)
+	}
 	if session.isWebSocket {
 		// the frame header and the packet are queued as ONE write, see base.BasicHttpSubSession.Write
 		body := packInterleaved(channel, packet)
